@@ -49,6 +49,8 @@ def handle (op : String) (args : List String) : Option (String × String × Stri
       | some d => s!"sz={ib.length};len={ib.length};rt=ok:" ++ (Spec.Protobuf.canonical ty d).show
       | none => "-"
     pure (m, s, String.intercalate "," (Known.protoClasses ty v))
+  -- proto.hist <type> <val1> <val2>: the round trip of val2 after failed decodes of corrupted encodings of val1 (history must not matter)
+  | "proto.hist", [ty, _v1, v2] => handle "proto.roundtrip" [ty, v2]
   | "proto.roundtrip", [ty, v] => do
     let ty ← Ty.parse ty
     let v ← Val.parse v
